@@ -1,5 +1,175 @@
-"""Self-validation corpus (DESIGN section 5) - thorough tier."""
+"""Self-validation corpus (DESIGN section 5) - thorough tier.
+
+Must-fire variants: the package is copied to a scratch directory outside
+/repo and /verif, one edit is applied (the variant must still compile), the
+property's rules are run on the copy - analysed, never executed - and the
+expected rule must report.  Must-stay-silent variants: behaviour-preserving
+rewrites (rename every local and private parameter, ast.unparse round trip,
+...) must give the same verdict as the unmodified tree.  Scratch copies are
+removed immediately.
+"""
+import ast
+import importlib
+import io
+import json
+import multiprocessing
+import os
+import shutil
+import sys
+import tempfile
+import traceback
+
+VERIF = os.path.dirname(os.path.dirname(os.path.abspath(__file__)))
 
 
-def run_for_property(pid, report, jobs=16, seed=0):
-    return
+def _load_corpus():
+    sys.path.insert(0, VERIF)
+    m = importlib.import_module('selftest.mutants')
+    s = importlib.import_module('selftest.silent')
+    return m.MUTANTS, s.SILENT
+
+
+def _scratch(repo):
+    d = tempfile.mkdtemp(prefix='fbsa_selftest_')
+    shutil.copytree(os.path.join(repo, 'file_builder'),
+                    os.path.join(d, 'file_builder'),
+                    ignore=shutil.ignore_patterns('__pycache__', 'test'))
+    return d
+
+
+def apply_edits(root, edits):
+    """edits: list of (file, old, new[, count]).  Returns None on success or
+    a reason string when an edit does not apply (tree differs)."""
+    for ed in edits:
+        fn, old, new = ed[0], ed[1], ed[2]
+        p = os.path.join(root, 'file_builder', fn)
+        s = open(p).read()
+        n = s.count(old)
+        want = ed[3] if len(ed) > 3 else 1
+        if n != want:
+            return 'snippet occurs %d times (expected %d) in %s' % (
+                n, want, fn)
+        s = s.replace(old, new)
+        try:
+            compile(s, p, 'exec')
+        except SyntaxError as e:
+            return 'variant does not compile: %s' % e
+        open(p, 'w').write(s)
+    return None
+
+
+def _run_rules(pid, root, only=None):
+    import check
+    buf = io.StringIO()
+    R, E = check.run(pid, root, 'quick', 0, only_rules=only,
+                     print_=lambda *a: None)
+    found = []
+    for rc in R.rules:
+        for f in rc.findings:
+            found.append((f.rule, f.construct))
+    return found
+
+
+def _job(args):
+    kind, spec, repo, pid = args
+    d = None
+    try:
+        d = _scratch(repo)
+        if kind == 'mutant':
+            why = apply_edits(d, spec['edits'])
+            if why:
+                return (kind, spec['id'], 'skipped', why)
+            found = _run_rules(pid, d)
+            hit = [f for f in found if f[0] in spec['expect']]
+            if hit:
+                return (kind, spec['id'], 'detected', hit[0][0] + ' | ' +
+                        hit[0][1])
+            return (kind, spec['id'], 'MISSED',
+                    'expected %s, reported %s' % (
+                        spec['expect'], sorted({f[0] for f in found})))
+        else:
+            import selftest.silent as sl
+            why = sl.apply(spec, d)
+            if why:
+                return (kind, spec['id'], 'skipped', why)
+            found = _run_rules(pid, d)
+            return (kind, spec['id'], 'findings', sorted(
+                {f[0] + ' | ' + f[1] for f in found}))
+    except Exception as e:
+        return (kind, spec['id'], 'ERROR', '%s: %s' % (
+            type(e).__name__, str(e)[:300]) + ' ' +
+            traceback.format_exc().splitlines()[-3][:200])
+    finally:
+        if d:
+            shutil.rmtree(d, ignore_errors=True)
+
+
+def run_for_property(pid, report, jobs=16, seed=0, repo=None, strict=None,
+                     print_=print):
+    from .model import AnalysisError
+    repo = repo or report_repo(report)
+    mutants, silent = _load_corpus()
+    mine = [m for m in mutants if pid in m['props']]
+    base = sorted({f.rule + ' | ' + f.construct
+                   for rc in report.rules for f in rc.findings})
+    work = [('mutant', m, repo, pid) for m in mine] + \
+           [('silent', s, repo, pid) for s in silent]
+    if not work:
+        return
+    with multiprocessing.Pool(min(jobs, len(work))) as pool:
+        results = pool.map(_job, work, chunksize=1)
+    det = miss = skip = err = 0
+    sil_ok = sil_bad = 0
+    rows = []
+    for kind, mid, status, info in results:
+        rows.append({'kind': kind, 'id': mid, 'status': status,
+                     'info': info})
+        if kind == 'mutant':
+            if status == 'detected':
+                det += 1
+            elif status == 'skipped':
+                skip += 1
+            elif status == 'MISSED':
+                miss += 1
+                print_('SELFTEST-MISS property=%s variant=%s %s' % (
+                    pid, mid, info))
+            else:
+                err += 1
+                print_('SELFTEST-ERROR property=%s variant=%s %s' % (
+                    pid, mid, info))
+        else:
+            if status == 'findings':
+                if _same_keys(info, base):
+                    sil_ok += 1
+                else:
+                    sil_bad += 1
+                    print_('SELFTEST-NOISE property=%s variant=%s verdict '
+                           'changed: %s vs base %s' % (pid, mid, info, base))
+            elif status == 'skipped':
+                skip += 1
+            else:
+                err += 1
+                print_('SELFTEST-ERROR property=%s variant=%s %s' % (
+                    pid, mid, info))
+    print_('  selftest: %d must-fire variants detected, %d missed, %d '
+           'skipped (snippet absent on this tree), %d errors; %d silent '
+           'variants unchanged, %d changed' % (
+               det, miss, skip, err, sil_ok, sil_bad))
+    report.extra['selftest'] = {
+        'must_fire_total': len(mine), 'detected': det, 'missed': miss,
+        'skipped': skip, 'errors': err, 'silent_total': len(silent),
+        'silent_unchanged': sil_ok, 'silent_changed': sil_bad,
+        'rows': rows}
+    if strict is None:
+        strict = os.environ.get('VERIF_SELFTEST_STRICT') == '1'
+    if strict and (miss or err or sil_bad):
+        raise AnalysisError('self-validation corpus failed for %s' % pid)
+
+
+def _same_keys(found, base):
+    # line numbers are not part of keys, so verdicts compare directly
+    return list(found) == list(base)
+
+
+def report_repo(report):
+    return os.environ.get('VERIF_REPO', '/repo')
